@@ -776,3 +776,100 @@ def resolve_flag(ix, body, sym, discr_op):
         if ok:
             return sym.operand(t["discr"]), by_val, sw
     return None
+
+
+# ---------------------------------------------------------------------------------------------- the pop-lowest-bit loop
+def pop_loop(body, sym, at):
+    """The loop around block `at` read as "once for every set bit of a mask, lowest bit first":
+
+        while m != 0 { i = m.trailing_zeros(); ...; m &= m - 1 }         (m an integer local)
+        while !m.is_empty() { i = m.drop_forward(); ... }                 (m a Bitboard local)
+
+    Returns (None, info) when the loop has that shape, info = {"mask": local, "init": symbolic value of the mask on entry,
+    "index": the call that yields the bit index, "blocks": loop blocks}; otherwise (reason, None).  What is required: the loop
+    has exactly one branch point (asserts aside), which leaves the loop exactly when the mask is empty; exactly one pop per
+    iteration, on every way round; in the integer form the index is read before the bit is cleared; nothing else writes the
+    mask inside the loop; the mask has one definition outside the loop."""
+    live = body.live_blocks()
+    loop = {x for x in live if not body.blocks[x].cleanup and (x == at or (body.reaches(x, at) and body.reaches(at, x)))}
+    if at not in body.reachable_from(at):
+        return "the block is not in a loop", None
+    sw = [x for x in sorted(loop) if body.blocks[x].term["k"] == "switch"]
+    if len(sw) != 1:
+        return "the loop has %d branch points, not just its head" % len(sw), None
+    h = sw[0]
+    t = body.blocks[h].term
+    if len(t["arms"]) != 1 or t["arms"][0][0] != 0:
+        return "the loop test is not a two-way test", None
+    on_false, on_true = t["arms"][0][1], t["otherwise"]
+    d = sym.operand(t["discr"])
+    neg = False
+    while d[0] == "un" and d[1] == "Not":
+        d, neg = d[2], not neg
+    mexpr = None
+    if d[0] == "bin" and d[1] in ("Ne", "Eq", "Gt") and d[3][0] == "const" and d[3][1] == 0:
+        mexpr, empty_when = d[2], (d[1] == "Eq")
+    elif d[0] == "call" and d[1].endswith("Bitboard::is_empty") and len(d[2]) == 1:
+        mexpr, empty_when = d[2][0], True
+    if mexpr is None:
+        return "the loop test `%s` is not an emptiness test of a mask" % mir.expr_str(d)[:80], None
+    if neg:
+        empty_when = not empty_when
+    exit_t, stay_t = (on_true, on_false) if empty_when else (on_false, on_true)
+    if exit_t in loop or stay_t not in loop:
+        return "the loop does not leave exactly when the mask is empty", None
+    mexpr = mir.strip_copies(mir.strip_refs(mexpr))
+    while mexpr[0] == "field" and mexpr[-1] == "0" and len(mexpr) == 3:
+        mexpr = mir.strip_copies(mexpr[1])       # `m.0 != 0` on a Bitboard local
+    if mexpr[0] != "var":
+        return "the tested mask `%s` is not a local variable" % mir.expr_str(mexpr)[:60], None
+    ml = [l for l in range(len(body.locals)) if body.local_name(l) == mexpr[1]]
+    if len(ml) != 1:
+        return "cannot identify the mask local", None
+    m = ml[0]
+    defs = body.defs().get(m, [])
+    inside = [x for x in defs if x[0] in loop]
+    outside = [x for x in defs if x[0] not in loop]
+    if len(outside) != 1 or outside[0][2].get("k") in ("partial",):
+        return "the mask has %d definitions before the loop" % len(outside), None
+    ob, oi, orv = outside[0]
+    init = sym.rvalue(orv) if orv.get("k") != "call" else sym.local(m)
+    if orv.get("k") == "call":
+        tt = orv["t"]
+        init = ("call", tt.get("callee") or "?", tuple(sym.operand(a) for a in tt["args"]))
+
+    def once(x):
+        return x in loop and h not in body.reachable_from(stay_t, removed={x}, include_start=True) or x == stay_t
+
+    borrows = []
+    for x in sorted(loop):
+        for s in body.blocks[x].stmts:
+            rv = s["rv"]
+            if rv["k"] in ("ref", "rawptr") and rv.get("mut", rv["k"] == "rawptr") and rv["p"]["l"] == m:
+                borrows.append((x, s["lhs"]["l"]))
+    pops = [(x, body.blocks[x].term) for x in sorted(loop) if body.blocks[x].term["k"] == "call" and (body.blocks[x].term.get("callee") or "").endswith("Bitboard::drop_forward")
+            and mir.strip_copies(mir.strip_refs(sym.operand(body.blocks[x].term["args"][0]))) == ("var", mexpr[1])]
+    if pops:
+        if len(pops) != 1 or inside or len(borrows) != 1:
+            return "the mask is popped %d times and otherwise written %d times per iteration" % (len(pops), len(inside) + len(borrows) - 1), None
+        if not once(pops[0][0]):
+            return "drop_forward is not reached exactly once on every way round the loop", None
+        return None, {"mask": m, "init": init, "index": ("call", pops[0][1]["callee"], None), "pop_block": pops[0][0], "blocks": loop, "head": h, "once": once}
+    if borrows:
+        return "the mask is mutably borrowed inside the loop", None
+    if len(inside) != 1 or inside[0][2].get("k") in ("partial", "call"):
+        return "the mask is written %d times per iteration" % len(inside), None
+    ub, ui, urv = inside[0]
+    u = sym.rvalue(urv)
+    v = ("var", mexpr[1])
+    ok = u[0] == "bin" and u[1] == "BitAnd" and any(
+        a == v and bb[0] == "bin" and bb[1].startswith("Sub") and bb[2] == v and bb[3][0] == "const" and bb[3][1] == 1 for a, bb in ((u[2], u[3]), (u[3], u[2])))
+    if not ok:
+        return "the mask is updated by `%s`, not m & (m - 1)" % mir.expr_str(u)[:80], None
+    if not once(ub):
+        return "the lowest bit is not cleared exactly once on every way round the loop", None
+    tz = [x for x in sorted(loop) if body.blocks[x].term["k"] == "call" and (body.blocks[x].term.get("callee") or "").endswith("::trailing_zeros")
+          and mir.strip_copies(sym.operand(body.blocks[x].term["args"][0])) == v]
+    if len(tz) != 1 or not once(tz[0]) or not body.dominates(tz[0], ub) or tz[0] == ub:
+        return "the bit index is not read (trailing_zeros of the mask) exactly once before the bit is cleared", None
+    return None, {"mask": m, "init": init, "index": ("call", body.blocks[tz[0]].term["callee"], (v,)), "pop_block": tz[0], "blocks": loop, "head": h, "once": once}
